@@ -33,7 +33,11 @@ type C19Case struct {
 	Del503    bool     `json:"del503,omitempty"`    // the first session DELETE is answered 503 (the session stays alive on the server)
 	Get503    bool     `json:"get503,omitempty"`    // legacy SSE: the first connect GET is answered 503; the handshake is then repeated under another context
 	ConnFault string   `json:"connfault,omitempty"` // with a configured request handler: the handler fails once with a connection error (EOF) at this request kind
+	Known     bool     `json:"known,omitempty"`     // the static headers use well-known names (User-Agent, Authorization, X-Api-Key) instead of X-Static-n
+	EditKind  string   `json:"editkind,omitempty"`  // the before-request function adds a query parameter to the URL of requests of this kind (documented: it may modify the URL); all others must still go to the configured URL
 }
+
+var c19KnownHeaders = []string{"User-Agent", "Authorization", "X-Api-Key"}
 
 var c19Ops = []string{"call", "call", "notify", "roots", "unknown", "terminate", "list", "reinit", "terminate-dead"}
 
@@ -49,6 +53,10 @@ func genC19(t *rapid.T) C19Case {
 		c.BeforeErr = rapid.SampledFrom([]string{"POST:tools/call", "POST:initialize", "POST:notifications/initialized", "GET", "POST:notifications/roots/list_changed", "POST:response", "DELETE", "POST:tools/list"}).Draw(t, "errat")
 	}
 	c.Query = rapid.SampledFrom([]string{"", "", "?api_key=k1", "?a=1&b=%2Fx"}).Draw(t, "query")
+	c.Known = c.Headers > 0 && rapid.IntRange(0, 2).Draw(t, "known") == 0
+	if c.Before && rapid.IntRange(0, 2).Draw(t, "edit") == 0 {
+		c.EditKind = rapid.SampledFrom([]string{"GET", "POST:initialize", "POST:tools/call", "POST:notifications/initialized", "POST:tools/list", "DELETE"}).Draw(t, "editkind")
+	}
 	c.Del503 = c.Kind == 0 && rapid.IntRange(0, 2).Draw(t, "del503") == 0
 	c.Get503 = c.Kind == 1 && !c.Init503 && rapid.IntRange(0, 3).Draw(t, "get503") == 0
 	if (c.Init503 || c.Get503) && (c.BeforeErr == "POST:initialize" || c.BeforeErr == "GET") {
@@ -197,12 +205,16 @@ func execC19(c C19Case) *Failure {
 	wantHeaders := map[string]string{}
 	for i := 0; i < c.Headers; i++ {
 		k, v := fmt.Sprintf("X-Static-%d", i), fmt.Sprintf("v%d", i)
+		if c.Known {
+			k = c19KnownHeaders[i]
+		}
 		wantHeaders[k] = v
 		opts = append(opts, mcp.WithHTTPHeaders(http.Header{k: {v}}))
 	}
 	var bmu sync.Mutex
 	var beforeLog, deadSeen []c19Seen
 	failedOnce := false
+	edits := 0
 	errBefore := errors.New("before-request says no")
 	if c.Before {
 		opts = append(opts, mcp.WithHTTPBeforeRequest(func(ctx context.Context, req *http.Request) error {
@@ -227,6 +239,13 @@ func execC19(c C19Case) *Failure {
 			if c.BeforeErr == kind && !failedOnce {
 				failedOnce = true
 				return errBefore
+			}
+			if c.EditKind == kind {
+				edits++
+				if req.URL.RawQuery != "" {
+					req.URL.RawQuery += "&"
+				}
+				req.URL.RawQuery += fmt.Sprintf("tok=%d", edits)
 			}
 			return nil
 		}))
@@ -552,7 +571,12 @@ func execC19(c C19Case) *Failure {
 		if sr.Path != expPath {
 			return Failf("C19/wrong-path/"+k, "%s: sent to %q, configured %q", w0, sr.Path, expPath)
 		}
-		if !(c.Kind == 1 && sr.Method == "POST") && sr.Query != strings.TrimPrefix(c.Query, "?") {
+		if k == c.EditKind && c.EditKind != "" {
+			// its own URL was edited by the before-request function: exactly one token on top of the configured query
+			if n := strings.Count(sr.Query, "tok="); n != 1 {
+				return Failf("C19/edited-url/"+k, "%s: the before-request function added one query parameter to this request's URL, it arrived with query %q", w0, sr.Query)
+			}
+		} else if !(c.Kind == 1 && sr.Method == "POST") && sr.Query != strings.TrimPrefix(c.Query, "?") {
 			return Failf("C19/wrong-query/"+k, "%s: sent with query %q, the configured URL has %q", w0, sr.Query, strings.TrimPrefix(c.Query, "?"))
 		}
 		for hk, hv := range wantHeaders {
